@@ -23,10 +23,12 @@ import (
 type ServerCase struct {
 	Doc string `json:"doc"`
 	Ops []Op   `json:"ops"`
+	// Batches: how many of the ops each DidChange notification carries (empty: 1, 2, 1, 2, ...).
+	Batches []int `json:"batches,omitempty"`
 }
 
 var recSrv = ev.New("C17", "c17.server",
-	"tgen programs are opened through proxy.Server.DidOpen and edited through DidChange with generated sequences of incremental and full-replace changes (one or several changes per notification, positions on rune boundaries incl. beyond line/document end) against a stub target and client; "+
+	"tgen programs are opened through proxy.Server.DidOpen and edited through DidChange with generated sequences of incremental and full-replace changes (1-4 changes per notification, each relative to the text the previous one left; positions on rune boundaries incl. beyond line/document end, and explicit ranges spanning the whole current document or the whole document as it was when the notification began) against a stub target and client; "+
 		"oracle: after every notification the server's copy equals the byte-splice model, and whenever the model text parses the Go text last forwarded to the target equals generate(parse(model)) - what the user sees is what gopls analyses. "+
 		"Non-trivial = an incremental edit on a multi-line document that parses afterwards; distinct by (document, edits)")
 
@@ -101,9 +103,13 @@ func decideServer(c ServerCase) (err error) {
 	if err := check("after open"); err != nil {
 		return err
 	}
-	// ops are sent in notifications of 1..2 changes
-	for i := 0; i < len(c.Ops); {
+	// ops are sent in notifications of several changes; within one notification every change is
+	// relative to the document as the previous change left it (LSP 3.17, didChange)
+	for i, b := 0, 0; i < len(c.Ops); b++ {
 		n := 1 + (i % 2)
+		if len(c.Batches) > 0 {
+			n = max(1, c.Batches[b%len(c.Batches)])
+		}
 		if i+n > len(c.Ops) {
 			n = len(c.Ops) - i
 		}
@@ -167,28 +173,46 @@ func TestPropServer(t *testing.T) {
 		src, _ := tgen.Print(g.Draw(t, "file"), "P")
 		c := ServerCase{Doc: src}
 		model := src
-		raws := rapid.SliceOfN(genRawOp, 1, 12).Draw(t, "ops")
-		for _, ro := range raws {
-			var op Op
-			text := rapid.SampledFrom(editTexts).Draw(t, "text")
-			if ro.Full {
-				op = Op{Nil: true, Text: model + text}
-			} else {
-				l1, c1 := pos(model, ro.L1, ro.K1)
-				l2, c2 := l1, c1
-				if ro.K2%3 == 0 { // a third of the edits replace a range
-					l2, c2 = pos(model, ro.L1+ro.L2%3, ro.K2)
-					if l2 < l1 || (l2 == l1 && c2 < c1) {
-						l1, c1, l2, c2 = l2, c2, l1, c1
+		nNotes := rapid.IntRange(1, 8).Draw(t, "notifications")
+		for b := 0; b < nNotes; b++ {
+			size := rapid.SampledFrom([]int{1, 1, 2, 2, 3, 4}).Draw(t, "batch")
+			c.Batches = append(c.Batches, size)
+			atStart := model // the document when this notification begins
+			for j := 0; j < size; j++ {
+				ro := genRawOp.Draw(t, "op")
+				var op Op
+				text := rapid.SampledFrom(editTexts).Draw(t, "text")
+				switch special := rapid.IntRange(0, 11).Draw(t, "special"); {
+				case ro.Full:
+					op = Op{Nil: true, Text: model + text}
+				case special <= 1:
+					// an explicit range that spans a whole document: the current one, or the one
+					// this notification started from (a different range once earlier changes of the
+					// same notification have grown the text)
+					ref := model
+					if special == 1 {
+						ref = atStart
 					}
+					lines := strings.Split(ref, "\n")
+					op = Op{L2: uint32(len(lines) - 1), C2: uint32(len(lines[len(lines)-1])), Text: text}
+					recSrv.Class("explicit whole-document range")
+				default:
+					l1, c1 := pos(model, ro.L1, ro.K1)
+					l2, c2 := l1, c1
+					if ro.K2%3 == 0 { // a third of the edits replace a range
+						l2, c2 = pos(model, ro.L1+ro.L2%3, ro.K2)
+						if l2 < l1 || (l2 == l1 && c2 < c1) {
+							l1, c1, l2, c2 = l2, c2, l1, c1
+						}
+					}
+					op = Op{L1: l1, C1: c1, L2: l2, C2: c2, Text: text}
 				}
-				op = Op{L1: l1, C1: c1, L2: l2, C2: c2, Text: text}
-			}
-			c.Ops = append(c.Ops, op)
-			model = modelApply(model, op)
-			if !op.Nil && strings.Contains(model, "\n") {
-				if _, ok := expectedGo(model); ok {
-					recSrv.NonTrivial(fmt.Sprintf("%q|%v", model, op), func() any { return map[string]any{"edit": op, "document_bytes": len(model)} })
+				c.Ops = append(c.Ops, op)
+				model = modelApply(model, op)
+				if !op.Nil && strings.Contains(model, "\n") {
+					if _, ok := expectedGo(model); ok {
+						recSrv.NonTrivial(fmt.Sprintf("%q|%v", model, op), func() any { return map[string]any{"edit": op, "document_bytes": len(model), "position_in_notification": j, "notification_size": size} })
+					}
 				}
 			}
 		}
